@@ -23,7 +23,7 @@ func init() {
 		Rule: "generated valid documents in every admissible formatting (2/3/4 spaces/tab, LF/CRLF/mixed, blank-line runs, no final newline) with every literal spelling (08:00, 12:05am, <24:00, 24:00, +0m, -0h, 90m, 1h0m, ???, one-sided dash spacing), " +
 			"summaries with leading/trailing blanks, tabs, entry/date/should-total look-alikes and multi-line summaries with extra indentation. P1 = output of `klog print --no-style --no-warn`. oracle: P1 is accepted; parse(P1) equals the generating records incl. notation facts; " +
 			"print(P1) == P1; P1 contains no CR, records are separated by exactly one empty line, entries are indented by four spaces (continuation lines by eight); P1 equals the reference model's canonical rendering line by line " +
-			"(headline should-totals compared by value). 1 in 150 cases: `klog print | klog print` through the real binary (stdin). non-trivial & distinct = documents with >=2 records, a non-canonical layout and >=1 non-canonical literal spelling or blank-edged summary, by hash",
+			"(headline should-totals compared by value). 1 in 25 cases through the full CLI under PRNG user preferences (time_convention, date_format, … must not influence print); 1 in 60 cases: `klog print | klog print` through the real binary (stdin; the only path on which the real stdout sink is exercised). non-trivial & distinct = documents with >=2 records, a non-canonical layout and >=1 non-canonical literal spelling or blank-edged summary, by hash",
 		Assumptions: []string{"--no-warn is passed: warnings are printed to stdout after the records and are not part of the printed file"},
 		Planned:     func(tier string, seed uint64) int64 { return map[string]int64{"quick": 30000, "thorough": 1500000}[tier] },
 		Run:         runC09,
@@ -72,7 +72,10 @@ func c09Check(e *core.Env, r *core.Rand, idx int64, d *gen.Out) {
 	}
 	w["printed"] = p1
 	if idx%25 == 3 {
-		if !cliAgrees(e, w, []string{"print", "--no-style", "--no-warn", f}, 1, "dark", "", obs.ClockAt(ref.Date{Y: 2024, M: 3, D: 15}, 600, 0), p1, false) {
+		// through the full CLI, under user preferences that must not influence what `print` shows
+		cfg := r.Pick("", "time_convention = 12h\n", "date_format = YYYY/MM/DD\n", "time_convention = 24h\ndate_format = YYYY-MM-DD\ndefault_rounding = 15m\n", "default_should_total = 8h!\nno_warnings = MORE_THAN_24H\n")
+		w["config"] = cfg
+		if !cliAgrees(e, w, []string{"print", "--no-style", "--no-warn", f}, 1, "dark", cfg, obs.ClockAt(ref.Date{Y: 2024, M: 3, D: 15}, 600, 0), p1, false) {
 			return
 		}
 	}
@@ -134,7 +137,7 @@ func c09Check(e *core.Env, r *core.Rand, idx int64, d *gen.Out) {
 	if e.WantSample() && len(d.Text) < 350 && nonCanon {
 		e.Sample(map[string]any{"file": d.Text, "printed": p1})
 	}
-	if idx%150 == 11 && e.KlogBin != "" {
+	if idx%60 == 11 && e.KlogBin != "" {
 		b1 := obs.RunBin(obs.BinEnv{Bin: e.KlogBin, ConfigDir: e.Dir + "/bincfg", Stdin: []byte(d.Text)}, "print", "--no-style", "--no-warn")
 		if b1.Err != nil {
 			e.Inconclusive("could not run the klog binary: " + b1.Err.Error())
